@@ -149,8 +149,13 @@ def J(a, b):
     return '\n'.join(p for p in (a, b) if p)
 
 
-def evaluate(A, B, md=None):
-    md = md or markdown.Markdown()
+# extensions under which the statement is evaluated as well: they add or change block / inline syntax that is LOCAL to a block (no
+# document-wide table, numbering or id space -- footnotes, abbr, toc, fenced_code, meta, md_in_html are not independent by design)
+LOCAL_EXTS = ['sane_lists', 'nl2br', 'wikilinks', 'legacy_em']
+
+
+def evaluate(A, B, md=None, exts=()):
+    md = md or markdown.Markdown(extensions=list(exts))
     try:
         oa = md.reset().convert(A); ob = md.reset().convert(B); oab = md.reset().convert(A + '\n\n' + B)
     except RecursionError:
@@ -159,7 +164,7 @@ def evaluate(A, B, md=None):
     if oab == want: return 'ok', (oa, ob)
     finding = None
     if 'klzzwxh' not in A + B and any(('\x02' in o or '\x03' in o or 'klzzwxh:' in o) for o in (oa, ob, oab)): finding = 'F-C08-1'
-    return 'viol', {'input': {'A': A, 'B': B}, 'config': {}, 'observed': repr(oab), 'required': repr(want), 'finding': finding}
+    return 'viol', {'input': {'A': A, 'B': B}, 'config': ({'extensions': list(exts)} if exts else {}), 'observed': repr(oab), 'required': repr(want), 'finding': finding}
 
 
 def _exc_violation(e, inp, config, text):
@@ -172,6 +177,7 @@ def _exc_violation(e, inp, config, text):
 def search(driver, rng, n):
     """distinct / non-trivial: distinct pairs with both convert(A) and convert(B) non-empty; measured with a set."""
     md = markdown.Markdown()
+    mdxs = {}
     dist = {}
     def bump(k): dist[k] = dist.get(k, 0) + 1
     viol, samples, seen, cases = [], [], set(), 0
@@ -187,13 +193,27 @@ def search(driver, rng, n):
         if not first_line_ok(B.split('\n')[0].replace('\t', ' ')) or '<' in A + B or '&' in A + B or ']:' in strip_lazydef(A) + B:
             bump('gen-rejected'); continue
         cases += 1
+        exts = ()
+        if rng.random() < 0.3:
+            # the same statement with block-local extensions enabled; ordered lists that do not start at 1 matter to sane_lists
+            exts = tuple(sorted(e for e in LOCAL_EXTS if rng.random() < 0.5)) or ('sane_lists',)
+            if 'sane_lists' in exts and rng.random() < 0.5:
+                k = rng.choice([2, 3, 5, 7, 10, 42])
+                A = A + rng.choice(['\n\n', '\n']) + '%d. five\n%d. six' % (k, k + 1) + rng.choice(['', '\n', '\n    - n\n    - m'])
+                if rng.random() < 0.6: B = B + '\n\n1. one\n2. two'
+            bump('with-extensions'); bump('ext:' + '+'.join(exts))
         try:
-            st, d = evaluate(A, B, md)
+            if exts:
+                mdx = mdxs.get(exts)
+                if mdx is None: mdx = mdxs[exts] = markdown.Markdown(extensions=list(exts))
+                st, d = evaluate(A, B, mdx, exts)
+            else:
+                st, d = evaluate(A, B, md)
         except Exception as e:
-            md = markdown.Markdown(); bump('exception:' + type(e).__name__)
-            viol.append(_exc_violation(e, {'A': A, 'B': B}, {}, A + B)); continue
+            md = markdown.Markdown(); mdxs.clear(); bump('exception:' + type(e).__name__)
+            viol.append(_exc_violation(e, {'A': A, 'B': B}, ({'extensions': list(exts)} if exts else {}), A + B)); continue
         if st == 'skip':
-            bump('skip:recursion'); md = markdown.Markdown(); continue
+            bump('skip:recursion'); md = markdown.Markdown(); mdxs.clear(); continue
         if st == 'viol':
             if d['finding']: bump('known:' + d['finding'])
             viol.append(d); continue
@@ -210,12 +230,12 @@ def search(driver, rng, n):
 
 
 def replay(witness):
-    return evaluate(witness['A'], witness['B'])[0] == 'viol'
+    return evaluate(witness['A'], witness['B'], None, tuple(witness.get('extensions', ())))[0] == 'viol'
 
 
 def replay_violation(v):
     try:
         A = v['input']['A']
-        return evaluate(long_A() if A == 'long_A()' else A, v['input']['B'])[0] == 'viol'
+        return evaluate(long_A() if A == 'long_A()' else A, v['input']['B'], None, tuple(v.get('config', {}).get('extensions', ())))[0] == 'viol'
     except Exception:
         return True
